@@ -131,7 +131,7 @@ def check_laws(ops, impl_line):
         if name in ("set", "typ", "app", "ins", "rem", "rmi", "rst", "cmp", "ptr", "adp"):
             tr, tp = parse_loc(t[1])
             changed = {tr}
-        elif name in ("grp", "grpfix"):
+        elif name == "grp":
             tr, tp = int(t[1]), []
             changed = {tr}
         else:
@@ -235,9 +235,6 @@ def run(ctx):
     if not (drv and exe):
         return
     lines, opss, n_corpus, n_exh = gen_lines(ctx)
-    token = V.detect_token(exe)   # the model follows the tree as it is (GroupBy with or without the repair)
-    if token != "grp":
-        lines = [l.replace(" grp ", " %s " % token) for l in lines]
     impl, faults = core.run_lines_parallel(exe, lines, jobs=14)
     model, _ = core.run_lines_parallel(drv, lines, jobs=14, env=None)
     for i, kind, err in faults:
